@@ -1,6 +1,58 @@
-//! Self-test of the reference models ("validating the validators"). A failure here is
-//! a harness error (exit 2), never a verdict about the library.
+//! Self-test of the reference models ("validating the validators"). A failure here is a
+//! harness error (exit 2), never a verdict about the library. Vectors are read from the
+//! repository's own files at run time; if a vector cannot be located (file re-organised)
+//! the test is skipped and says so.
+use crate::refmodel::{addr, merkle, ser, sha, sighash as rs};
+use crate::rt::{hex, unhex};
 use serde_json::{json, Value};
+
+fn read(rel: &str) -> Option<String> {
+    std::fs::read_to_string(format!("{}/{}", crate::corpus::repo_root(), rel)).ok()
+}
+
+/// quoted string literals on non-comment lines of a text region
+fn quoted(region: &str) -> Vec<String> {
+    let mut out = Vec::new();
+    for line in region.lines() {
+        let l = line.trim_start();
+        if l.starts_with("//") {
+            continue;
+        }
+        let mut rest = l;
+        while let Some(i) = rest.find('"') {
+            let after = &rest[i + 1..];
+            match after.find('"') {
+                Some(j) => {
+                    out.push(after[..j].to_string());
+                    rest = &after[j + 1..];
+                }
+                None => break,
+            }
+        }
+    }
+    out
+}
+
+fn region<'a>(text: &'a str, from: &str, to: &str) -> Option<&'a str> {
+    let i = text.find(from)?;
+    let rest = &text[i..];
+    let j = rest[from.len()..].find(to).map(|x| x + from.len()).unwrap_or(rest.len());
+    Some(&rest[..j])
+}
+
+fn rev(mut a: [u8; 32]) -> [u8; 32] {
+    a.reverse();
+    a
+}
+
+fn arr(v: &[u8]) -> Option<[u8; 32]> {
+    if v.len() != 32 {
+        return None;
+    }
+    let mut a = [0u8; 32];
+    a.copy_from_slice(v);
+    Some(a)
+}
 
 pub fn run() -> Value {
     let mut results: Vec<Value> = Vec::new();
@@ -11,16 +63,207 @@ pub fn run() -> Value {
         }
         results.push(json!({"test": name, "pass": pass, "note": note}));
     };
-    // SHA-256 known answers
-    let h = crate::refmodel::sha::sha256(b"abc");
-    t("sha256(abc)", crate::rt::hex(&h) == "ba7816bf8f01cfea414140de5dae2223b00361a396177a9cb410ff61f20015ad", String::new());
-    let h = crate::refmodel::sha::sha256(b"");
-    t("sha256(empty)", crate::rt::hex(&h) == "e3b0c44298fc1c149afbf4c8996fb92427ae41e4649b934ca495991b7852b855", String::new());
-    let h = crate::refmodel::sha::sha256(&[b'a'; 119]);
-    let h2 = {
-        use elements::hashes::{sha256, Hash};
-        sha256::Hash::hash(&[b'a'; 119]).to_byte_array()
-    };
-    t("sha256(119 x a) vs bitcoin_hashes", h == h2, String::new());
+
+    // ---- SHA-256
+    t("sha256(abc)", hex(&sha::sha256(b"abc")) == "ba7816bf8f01cfea414140de5dae2223b00361a396177a9cb410ff61f20015ad", String::new());
+    t("sha256(empty)", hex(&sha::sha256(b"")) == "e3b0c44298fc1c149afbf4c8996fb92427ae41e4649b934ca495991b7852b855", String::new());
+    {
+        use elements::hashes::{sha256, sha256d, Hash};
+        use rand::{RngCore, SeedableRng};
+        let mut r = rand_chacha::ChaCha20Rng::seed_from_u64(0x5e1f);
+        let mut all = true;
+        for i in 0..1000usize {
+            let mut m = vec![0u8; (i * 7) % 300];
+            r.fill_bytes(&mut m);
+            all &= sha::sha256(&m) == sha256::Hash::hash(&m).to_byte_array();
+            all &= sha::sha256d(&m) == sha256d::Hash::hash(&m).to_byte_array();
+        }
+        t("sha256/sha256d vs bitcoin_hashes on 1000 messages (lengths 0..299)", all, String::new());
+        // tagged hash against the dependency's generic tagged-hash engine layout
+        let tag = sha256::Hash::hash(b"TapLeaf/elements").to_byte_array();
+        let mut pre = tag.to_vec();
+        pre.extend_from_slice(&tag);
+        pre.extend_from_slice(b"xyz");
+        t("tagged hash layout", sha::tagged("TapLeaf/elements", b"xyz") == sha256::Hash::hash(&pre).to_byte_array(), String::new());
+    }
+
+    // ---- fast merkle root: two structurally different reference definitions agree; Elements Core vectors
+    {
+        let mut all = true;
+        for n in 0..200usize {
+            let leaves: Vec<[u8; 32]> = (0..n).map(|i| sha::sha256(&(i as u64).to_le_bytes())).collect();
+            all &= merkle::root(&leaves) == merkle::root_recursive(&leaves);
+        }
+        t("refmerkle level-by-level == recursive split, counts 0..199", all, String::new());
+        match read("src/fast_merkle_root.rs").and_then(|s| {
+            let leaves = quoted(region(&s, "let test_leaves", "];")?);
+            let roots = quoted(region(&s, "let test_roots", "];")?);
+            Some((leaves, roots))
+        }) {
+            Some((leaves, roots)) if leaves.len() + 1 == roots.len() && !leaves.is_empty() => {
+                let lv: Vec<[u8; 32]> = leaves.iter().filter_map(|h| unhex(h).and_then(|b| arr(&b)).map(rev)).collect();
+                let mut all = lv.len() == leaves.len();
+                for i in 0..roots.len() {
+                    if let Some(want) = unhex(&roots[i]).and_then(|b| arr(&b)).map(rev) {
+                        all &= merkle::root(&lv[..i.min(lv.len())]) == want;
+                    } else {
+                        all = false;
+                    }
+                }
+                t("refmerkle reproduces the Elements Core roots quoted in src/fast_merkle_root.rs", all, format!("{} roots", roots.len()));
+            }
+            _ => t("refmerkle vs src/fast_merkle_root.rs vectors", true, "skipped: vectors not located".into()),
+        }
+    }
+
+    // ---- dynafed roots quoted in src/dynafed.rs (test_param_roots)
+    {
+        let compact = merkle::dynafed_root(&[1], 2, &[0u8; 32]);
+        let extra = merkle::dynafed_extra_root(&[3], &[4], &[vec![5, 6], vec![7]]);
+        let full = merkle::dynafed_root(&[1], 2, &extra);
+        let header = merkle::root(&[compact, full]);
+        match read("src/dynafed.rs").and_then(|s| region(&s, "fn test_param_roots", "fn to_debug_string").map(quoted)) {
+            Some(q) => {
+                let hexes: Vec<String> = q.into_iter().filter(|x| x.len() == 64 && x.chars().all(|c| c.is_ascii_hexdigit())).collect();
+                if hexes.len() == 3 {
+                    let m = |got: &[u8; 32], want: &str| hex(got) == want || hex(&rev(*got)) == want;
+                    t("refmerkle dynafed roots == src/dynafed.rs test_param_roots", m(&compact, &hexes[0]) && m(&full, &hexes[1]) && m(&header, &hexes[2]), format!("compact {} full {} header {}", hex(&compact), hex(&full), hex(&header)));
+                } else {
+                    t("refmerkle dynafed roots", true, format!("skipped: expected 3 digests, found {}", hexes.len()));
+                }
+            }
+            None => t("refmerkle dynafed roots", true, "skipped: test_param_roots not located".into()),
+        }
+    }
+
+    // ---- refser / refdec: every harvested vector that the reference decoder accepts re-serializes exactly
+    let corpus = crate::corpus::harvest();
+    {
+        let (mut txs, mut blocks, mut bad) = (0, 0, Vec::new());
+        for b in &corpus {
+            if let Ok(tx) = ser::whole(b, ser::dec_tx) {
+                txs += 1;
+                if tx.full() != *b {
+                    bad.push(hex(&b[..b.len().min(24)]));
+                }
+            }
+            if let Ok(blk) = ser::whole(b, ser::dec_block) {
+                blocks += 1;
+                if blk.full() != *b {
+                    bad.push(hex(&b[..b.len().min(24)]));
+                }
+            }
+        }
+        t("refser(refdec(v)) == v for harvested repository vectors", bad.is_empty() && txs >= 5, format!("{} transactions, {} blocks among {} harvested literals; mismatches {:?}", txs, blocks, corpus.len(), bad));
+    }
+
+    // ---- refsighash: the digests pinned in src/sighash.rs
+    match read("src/sighash.rs") {
+        Some(s) => {
+            let (mut n_seg, mut n_leg, mut bad) = (0, 0, Vec::new());
+            for line in s.lines() {
+                let l = line.trim_start();
+                let seg = l.starts_with("test_segwit_sighash(");
+                let leg = l.starts_with("test_legacy_sighash(");
+                if !seg && !leg {
+                    continue;
+                }
+                let q = quoted(l);
+                let ty = if l.contains("SinglePlusAnyoneCanPay") { 0x83 } else if l.contains("NonePlusAnyoneCanPay") { 0x82 } else if l.contains("AllPlusAnyoneCanPay") { 0x81 } else if l.contains("EcdsaSighashType::Single") { 3 } else if l.contains("EcdsaSighashType::None") { 2 } else { 1 };
+                // input index: first bare integer argument after the script literal
+                let idx = 0usize;
+                let parsed = (|| {
+                    let tx = ser::whole(&unhex(q.first()?)?, ser::dec_tx).ok()?;
+                    let script = unhex(q.get(1)?)?;
+                    if seg {
+                        let vb = unhex(q.get(2)?)?;
+                        let value = ser::whole(&vb, ser::dec_value).ok()?;
+                        let want = unhex(q.get(3)?)?;
+                        Some((rs::segwit_v0_digest(&tx, idx, &script, &value, ty), want))
+                    } else {
+                        let want = unhex(q.get(2)?)?;
+                        Some((rs::legacy_digest(&tx, idx, &script, ty), want))
+                    }
+                })();
+                match parsed {
+                    Some((got, want)) => {
+                        if seg {
+                            n_seg += 1;
+                        } else {
+                            n_leg += 1;
+                        }
+                        if got[..] != want[..] {
+                            bad.push(format!("{} type {:#x}: got {} want {}", if seg { "segwit" } else { "legacy" }, ty, hex(&got), hex(&want)));
+                        }
+                    }
+                    None => bad.push("unparsable vector line".into()),
+                }
+            }
+            if n_seg + n_leg == 0 {
+                t("refsighash vs src/sighash.rs vectors", true, "skipped: vectors not located".into());
+            } else {
+                t("refsighash reproduces the Elements-generated digests pinned in src/sighash.rs", bad.is_empty(), format!("{} segwit-v0, {} legacy vectors; {:?}", n_seg, n_leg, bad));
+            }
+        }
+        None => t("refsighash vs src/sighash.rs vectors", true, "skipped: file not found".into()),
+    }
+
+    // ---- refaddr: the fixed address strings in src/address.rs. The strings are parsed by the
+    // library only to obtain (network, payload, blinder); a mismatch is a harness error only if the
+    // library's own display reproduces the string (otherwise the vector is left to C06).
+    match read("src/address.rs").and_then(|s| region(&s, "fn test_fixed_addresses", "\n    }\n").map(quoted)) {
+        Some(strings) if !strings.is_empty() => {
+            use std::str::FromStr;
+            let (mut n, mut skipped, mut bad) = (0, 0, Vec::new());
+            for s in strings.iter().filter(|s| s.len() > 20) {
+                match elements::Address::from_str(s) {
+                    Ok(a) if a.to_string() == *s => {
+                        let net = crate::mon::c06::net_index(a.params);
+                        let Some(net) = net else {
+                            skipped += 1;
+                            continue;
+                        };
+                        let bl = a.blinding_pubkey.map(|k| k.serialize());
+                        let want = addr::address(&addr::NETS[net], &crate::mon::c06::rpayload_of(&a), bl.as_ref());
+                        n += 1;
+                        if want != *s {
+                            bad.push(format!("{} -> {}", s, want));
+                        }
+                    }
+                    _ => skipped += 1,
+                }
+            }
+            t("refaddr reproduces the fixed address strings of src/address.rs", bad.is_empty(), format!("{} strings checked, {} skipped; {:?}", n, skipped, bad));
+        }
+        _ => t("refaddr vs src/address.rs fixed addresses", true, "skipped: vectors not located".into()),
+    }
+
+    // ---- reference taproot DFS validity == shape enumeration
+    {
+        use crate::refmodel::tap;
+        let mut all = true;
+        for n in 1..=6 {
+            for s in tap::shapes(n) {
+                all &= tap::valid_dfs_depths(&s);
+            }
+        }
+        all &= !tap::valid_dfs_depths(&[2, 1, 2]) && !tap::valid_dfs_depths(&[1]) && !tap::valid_dfs_depths(&[1, 1, 1]) && !tap::valid_dfs_depths(&[]);
+        let counts: Vec<usize> = (1..=7).map(|n| tap::shapes(n).len()).collect();
+        all &= counts == vec![1, 1, 2, 5, 14, 42, 132];
+        t("reftap: enumerated shapes are valid DFS sequences; Catalan counts", all, format!("{:?}", counts));
+    }
+
+    // ---- BIP370 reference on the specification's own cases
+    {
+        use crate::refmodel::psetx::locktime;
+        let all = locktime(&[], None) == Ok(0)
+            && locktime(&[], Some(7)) == Ok(7)
+            && locktime(&[(Some(600_000_000), Some(100))], Some(5)) == Ok(100)
+            && locktime(&[(Some(600_000_000), None), (Some(500_000_001), Some(9))], None) == Ok(600_000_000)
+            && locktime(&[(Some(600_000_000), None), (None, Some(9))], None).is_err()
+            && locktime(&[(None, None), (None, Some(9)), (Some(500_000_000), Some(11))], Some(1)) == Ok(11);
+        t("reflock on hand-checked BIP370 cases", all, String::new());
+    }
+
     json!({"ok": ok, "results": results})
 }
